@@ -1,5 +1,6 @@
 import SoxrModel.Cr.Model
 import SoxrModel.Cr.Wf
+import SoxrModel.Cr.Time
 /-! Line-protocol driver for the constant-rate count model (`soxrmodel cr < ops`).  One op per line in, one canonical
     line out; the harness diffs these lines with what the real code printed. -/
 namespace Soxr.Cr.Driver
@@ -20,6 +21,8 @@ structure DSt where
   api : Api := { eng := { stages := [] } }
   pending : Nat := 0             -- stage lines still expected
   acc : List Stage := []         -- stage lines read so far (input-side first reversed = output-side first)
+  lacc : List LStage := []       -- the same stages with the integers the time map reads
+  lplan : List LStage := []
   fuel : Nat := 100000000
 
 def parseStage (m : List (String × String)) : Stage :=
@@ -31,6 +34,11 @@ def parseStage (m : List (String × String)) : Stage :=
              poly0 := getNat m "poly0" == 1, taps := getNat m "taps", L := getNat m "L", dftLen := getNat m "dftLen",
              numTaps := getNat m "numTaps", M := getInt m "M" },
     st := { occ := getNat m "preload", clk := getNat m "clk", remM := getNat m "remM", isz := getNat m "isz" } }
+
+def parseLStage (m : List (String × String)) : LStage :=
+  let s := parseStage m
+  { cfg := s.cfg, s0 := s.st,
+    lat := { pre := getNat m "pre", postPeak := getNat m "postPeak", nc := getNat m "nc", cubic := getNat m "cubic" == 1 } }
 
 def num (d : DSt) : Num :=
   { owed := fun n => ((Float.ofNat n) / d.ioRatio + 0.5).toUInt64.toNat,
@@ -82,13 +90,14 @@ def step (d : DSt) (line : String) : DSt × Option String :=
     let m := kvs rest
     let k := getNat m "k"
     let r := Float.ofBits (getNat m "ratio").toUInt64
-    let d' := { d with ioRatio := r, pending := k, acc := [] }
-    if k == 0 then ({ d' with plan := [], api := { eng := { stages := [] } } }, some "ok plan") else (d', none)
+    let d' := { d with ioRatio := r, pending := k, acc := [], lacc := [] }
+    if k == 0 then ({ d' with plan := [], lplan := [], api := { eng := { stages := [] } } }, some "ok plan") else (d', none)
   | "cr.stage" :: rest =>
     let s := parseStage (kvs rest)
     let acc := s :: d.acc
-    if d.pending ≤ 1 then ({ d with pending := 0, acc := [], plan := acc, api := { eng := { stages := acc } } }, some "ok plan")
-    else ({ d with pending := d.pending - 1, acc := acc }, none)
+    let lacc := parseLStage (kvs rest) :: d.lacc
+    if d.pending ≤ 1 then ({ d with pending := 0, acc := [], lacc := [], plan := acc, lplan := lacc, api := { eng := { stages := acc } } }, some "ok plan")
+    else ({ d with pending := d.pending - 1, acc := acc, lacc := lacc }, none)
   | ["cr.setfn", n] =>
     let mi := n.toNat?.getD 0
     ({ d with api := { d.api with hasFn := true, maxIlen := if mi == 0 then 2^64 - 1 else mi } }, some "ok setfn")
@@ -102,6 +111,12 @@ def step (d : DSt) (line : String) : DSt × Option String :=
       let bad := (d.api.eng.stages.reverse.zipIdx.filter fun (x, _) => !decide x.WF).map fun (x, i) =>
         s!"{i}:{repr x.cfg.kind}"
       (d, some s!"WF 0 failing-stages={bad}")
+  | ["cr.time"] =>
+    -- `PlanLatOK`, `offsetOf`, `rateOf` exactly as the theorems of Properties/C04 state them, on the fresh plan
+    let ts := d.lplan.map tstage
+    let off := offsetOf ts
+    let rate := rateOf ts
+    (d, some s!"TIME lat={if decide (PlanLatOK true d.lplan) then 2 else if decide (PlanLatOK false d.lplan) then 1 else 0} off={off.num}/{off.den} rate={rate.num}/{rate.den}")
   | ["cr.delay"] => (d, some s!"DELAY {delayBits d}")
   | "cr.proc" :: hasIn :: flushReq :: useIdone :: ilen0 :: olen :: script =>
     match d.api.process (num d) d.fuel (hasIn == "1") (flushReq == "1") (useIdone == "1")
